@@ -41,6 +41,8 @@ def texts(L):
             src[k] = "nop\n" * 25
         else:
             src[k] = "".join((L[l][0] if l is not None else "foo bar, 1") + "\n" for l in ls)
+    if "tgarb" not in src:        # the tree refuses every line of the stress pool: the longest well-formed line stands in
+        T["tgarb"], src["tgarb"] = T["tmax"], src["tmax"]
     return T, src
 
 
